@@ -212,8 +212,20 @@ class Bag(_Metric):
         return self
 
 
+class BagWithCallable(Bag):
+    """the same metric configured with a callable that only exists in this process (a lambda, as `FrechetAudioDistance(preproc=…)` or any
+    user metric may hold): such an object cannot be pickled by anybody, but clone_metric / deepcopy / state_dict must still work"""
+    def __init__(self, device=None):
+        super().__init__(device=device)
+        self.post = lambda t: t + 0.0
+
+    @torch.inference_mode()
+    def compute(self):
+        return tuple(self.post(t) for t in super().compute())
+
+
 def _user_metrics():
-    return [Bag]
+    return [Bag, BagWithCallable]
 
 
 def user_defined(rep: Report, rng: Rng):
@@ -224,6 +236,8 @@ def user_defined(rep: Report, rng: Rng):
             ops = [rng.choice(["u", "u", "u", "r", "m", "to"]) for _ in range(rng.randint(1, 6))]
             batches = [(rng.choice(["a", "b", "c"]), torch.tensor([float(rng.choice([0.25, 0.5, 1.0, 2.0])) for _ in range(rng.randint(1, 3))])) for _ in range(12)]
             how = HOW[rep_i % 4]
+            if cls is BagWithCallable and how == "pickle":
+                how = "clone_metric"
 
             def play(m, ops_, start=0):
                 k = start
